@@ -117,6 +117,7 @@ func (c *LuaCont) RunInThread(t *Thread) (Cont, error) {
 RunLoop:
 	for {
 		t.RequireCPU(1)
+		verifLuaStep(t, c, pc)
 
 		if t.DebugHooks.areFlagsEnabled(HookFlagLine) {
 			line := lines[pc]
@@ -389,6 +390,7 @@ RunLoop:
 					if err := t.cleanupCloseStack(c, c.closeStackBase, nil); err != nil {
 						return nil, err
 					}
+					verifCloseStack(t, c)
 				}
 
 				if t.areFlagsEnabled(HookFlagCall | HookFlagReturn) {
